@@ -32,10 +32,61 @@ RULES = {
              'argument into the original one, consumed into the encoded '
              'length, the channel into the channel argument, and every path '
              'condition of the successful return into True',
+    'C01.T': 'table-valued arguments: for every tag the value encoder emits, '
+             'the element encoder and the decoder registered for that tag '
+             'agree (Pair) - the part of C03 a method round trip rests on',
     'C01.C': 'constructor pass-through: every argument is stored unchanged '
              'in the attribute of the same name for every value of its wire '
              'type (None / empty may become the empty value of that type)',
 }
+
+
+def table_value_pairs(chk, ctx):
+    """Pair(E, D) for every (tag, element encoder) the table-value
+    encoder emits, against the decoder TABLE_MAPPING has for that tag."""
+    from .. import tables, isets
+    from ..model import FuncInfo
+    prog = ctx.prog
+    decs, _dups = tables.tag_decoders(ctx)
+    _fi, _P, arms, _rej, _it = tables.value_arms(ctx)
+    todo = []
+    for arm in arms:
+        if arm.callee and arm.callee != 'encode.table_integer':
+            todo.append((arm.tag, arm.callee, None))
+    for legacy in (False, True):
+        for s_, arm in tables.ladder_arms(ctx, legacy)['arms']:
+            if arm.callee:
+                todo.append((arm.tag, arm.callee, s_))
+    seen = set()
+    n = 0
+    for tag, callee, arm_set in todo:
+        if (tag, callee, arm_set) in seen:
+            continue
+        seen.add((tag, callee, arm_set))
+        d = decs.get(tag)
+        e = prog.functions.get('pamqp.' + callee)
+        if not isinstance(d, FuncInfo) or e is None:
+            continue  # C03.T reports missing decoders
+        E, D = pairs.enc_desc(ctx, e), pairs.dec_desc(ctx, d)
+        reach = None
+        if arm_set is not None and arm_set.ivs:
+            lo, hi = arm_set.ivs[0][0], arm_set.ivs[-1][1]
+            reach = (None if lo == isets.NEG else int(lo),
+                     None if hi == isets.POS else int(hi))
+        container = tag in (b'A', b'F')
+        for clause, okk, text in pairs.pair(E, D, reach=reach):
+            if container and clause in ('read', 'consumed', 'view',
+                                        'layout'):
+                continue  # container framing is C03.C's
+            n += 1
+            if okk is False:
+                chk.ob('C01.T', 'tag %r Pair(%s, %s) %s' % (
+                    tag, e.short, d.short, clause), False, text,
+                       site='%s:%d / %s:%d' % (
+                           e.module.relpath, e.node.lineno,
+                           d.module.relpath, d.node.lineno))
+    chk.ob('C01.T', 'table value pairs', n >= 20,
+           '%d Pair clauses over the emitted tags examined' % n)
 
 
 def bit_acceptance(chk, ctx):
@@ -390,6 +441,7 @@ def run(chk, ctx):
             chk.ob('C01.I', ci.short, False,
                    'method class is not reachable through INDEX_MAPPING')
     bit_acceptance(chk, ctx)
+    table_value_pairs(chk, ctx)
     chk.floor('C01.L', 64, 'classes', count=len(seen))
     chk.floor('C01.D', 64, 'constructors')
     chk.floor('C01.C', 120, 'constructor arguments')
